@@ -93,3 +93,10 @@ package bft
 //@   callsite AddPartialQC requires[signed] sigVerifies(bytes(msg.Signature.PublicKey), signBytesOf(msg), bytes(msg.Signature.Signature))
 //@   callsite AddVote requires[signed] sigVerifies(bytes(msg.Signature.PublicKey), signBytesOf(msg), bytes(msg.Signature.Signature))
 //@   callsite AddPacemakerMessage requires[signed] sigVerifies(bytes(msg.Signature.PublicKey), signBytesOf(msg), bytes(msg.Signature.Signature))
+
+// ---- C19: a partial certificate is kept under an identity that covers ALL of it -------------------------------------
+// Two partial certificates for the same payload signed by different validator subsets are different pieces of evidence
+// (they implicate different signers): the key a certificate is stored under is the hex of its complete deterministic
+// encoding - header, payload hashes, aggregate signature AND signer bitmap - not a digest of the signed payload alone.
+//@ func (*BFT).AddPartialQC
+//@   ensures[identity] isnil(err) ==> indom(b.PartialQCs, hexOf(pbBytes(m.Qc))) && b.PartialQCs[hexOf(pbBytes(m.Qc))] == m.Qc
